@@ -46,7 +46,9 @@ def r1(ctx, chk):
     ix = ctx.ix
     chart = module_literal(ctx.repo, "dateparser/parser.py", "date_order_chart")
     rdo = ix.func("dateparser.parser:resolve_date_order")
-    cl = _local_dict(rdo, "chart_list")
+    from .util import dict_with_keys, name_bound_to
+    cl = dict_with_keys(rdo, ["DMY", "YMD"])
+    cl_name = name_bound_to(rdo, cl) if cl is not None else None
     if cl is None:
         raise AnalysisError(rule, "resolve_date_order.chart_list not found")
     chart_list = ast.literal_eval(cl)
@@ -65,7 +67,7 @@ def r1(ctx, chk):
     rets = [n for n in iter_own_nodes(rdo.node) if isinstance(n, ast.Return)]
     t = " ".join(ast.unparse(rets[-1].value).split()) if rets else ""
     p = rdo.params()
-    ok = t == "chart_list[%s] if %s else date_order_chart[%s]" % (p[0], p[1], p[0])
+    ok = t == "%s[%s] if %s else date_order_chart[%s]" % (cl_name, p[0], p[1], p[0])
     chk.ob(rule, "resolve_date_order(order, lst) returns chart_list[order] / date_order_chart[order]", ok, "returns %s" % t,
            key={"table": "resolve_date_order", "construct": "return"}, file=rdo.file, function=rdo.qual, line=rdo.node.lineno)
     # numeric directive table
@@ -185,7 +187,17 @@ def r3(ctx, chk):
     chk.ob(rule, "parse_number skips only the pinned component", len(skip) == 1 and ast.unparse(skip[0].test) == "skip_component == component", "",
            key={"function": pn.key, "construct": "skip test"}, file=pn.file, function=pn.qual, line=pn.node.lineno)
     # skip_component is set only for a 4-character token that was taken as the year
-    sets = [n for n in iter_own_nodes(init.node) if isinstance(n, ast.Assign) and ast.unparse(n.targets[0]) == "skip_component"
+    pcalls0 = [c for c in iter_own_nodes(init.node) if isinstance(c, ast.Call) and ast.unparse(c.func) == "self._parse"]
+    pin = None
+    for c in pcalls0:
+        for k in c.keywords:
+            if k.arg == "skip_component" and isinstance(k.value, ast.Name):
+                pin = k.value.id
+        if pin is None and len(c.args) >= 3 and isinstance(c.args[2], ast.Name):
+            pin = c.args[2].id
+    if pin is None:
+        raise AnalysisError(rule, "_parser.__init__: no local is handed to self._parse as skip_component")
+    sets = [n for n in iter_own_nodes(init.node) if isinstance(n, ast.Assign) and ast.unparse(n.targets[0]) == pin
             and not (isinstance(n.value, ast.Constant) and n.value.value is None)]
     ok = len(sets) == 1 and isinstance(sets[0].value, ast.Constant) and sets[0].value.value == "year"
     if ok:
@@ -194,12 +206,13 @@ def r3(ctx, chk):
             for a, p in conjuncts(test, pol):
                 if p:
                     facts.add(" ".join(ast.unparse(a).split()))
-        ok = "len(token) == 4" in facts and any(x.endswith("== 'year'") for x in facts)
+        import re as _re
+        ok = any(_re.fullmatch(r"len\((\w+)\) == 4", x) for x in facts) and any(x.endswith("== 'year'") for x in facts)
     chk.ob(rule, "a four-digit token taken as the year pins the year for the remaining tokens", ok, "",
            key={"function": init.key, "construct": "skip_component"}, file=init.file, function=init.qual, line=init.node.lineno)
     pcalls = [c for c in iter_own_nodes(init.node) if isinstance(c, ast.Call) and ast.unparse(c.func) == "self._parse"]
-    ok = bool(pcalls) and all({k.arg: ast.unparse(k.value) for k in c.keywords}.get("skip_component") == "skip_component"
-                              or (len(c.args) >= 3 and ast.unparse(c.args[2]) == "skip_component") for c in pcalls)
+    ok = bool(pcalls) and all({k.arg: ast.unparse(k.value) for k in c.keywords}.get("skip_component") == pin
+                              or (len(c.args) >= 3 and ast.unparse(c.args[2]) == pin) for c in pcalls)
     chk.ob(rule, "the pin is handed to _parse for every later token", ok, "", key={"function": init.key, "construct": "skip passed"},
            file=init.file, function=init.qual, line=init.node.lineno)
     nsp = ix.func("dateparser.parser:_no_spaces_parser.parse")
